@@ -52,10 +52,13 @@ def self_test_replay(ctx, module, cases, corrupt, vh_args=(), what=""):
 # C35 subintent structure
 def C35(ctx):
     q = ctx.quick
-    consts = {"NS": "{0, 1, 2}" if q else "{0, 1, 2, 3}", "Sample3": 2000 if q else 0,
-              "Sample4": 0 if q else 10000, "Seed": ctx.seed % 65521}
+    # quick keeps the FULL product for n = 3 over (hash pattern x every multiset of at most 3 child entries x maxDepth
+    # 0..3 x root kind / yield variant) and moves every single edge of a valid tree through the yield counts next to
+    # 1/1; only the larger child multisets (4..5 entries) and joint yield combinations are sampled (seeded) in quick
+    consts = {"NS": "{0, 1, 2, 3}", "Extra3": 0 if q else 2, "Yields3": '"edge"' if q else '"all"',
+              "Sample3": 1000 if q else 0, "Sample4": 0 if q else 10000, "Seed": ctx.seed % 65521}
     out_file = ctx.wpath("gen.out")
-    r = tlc("TxStructure", "GenTxStructure", workers=4 if q else 8, consts=consts, timeout=3000,
+    r = tlc("TxStructure", "GenTxStructure", workers=8, consts=consts, timeout=3000,
             out_file=out_file, heap="4g")
     os.unlink(out_file)
     tlc_must_pass(r, "GenTxStructure (laws of TxStructure on the bounded universe)", required_actions=["Expand"])
@@ -107,13 +110,15 @@ def C35(ctx):
     return {"exhaustive": True, "distinct_nontrivial": nontrivial,
             "well_formed_cases": n_ok, "single_defect_cases": dict(single), "impl_answers": classes,
             "real_transactions": len(real), "impl_answers_real_transactions": real_classes,
-            "rule": "every structure with n <= %s listed subintents (any pattern of equal/distinct hashes, any multiset of "
-                    "at most n+2 child entries <<intent, hash or unknown>>, maxDepth 0..3, root transaction/subintent, "
-                    "yield counts 1 / mixed / all 0..2 combinations on valid trees) enumerated by TLC as states%s; each is "
+            "rule": "every structure with n <= 3 listed subintents (any pattern of equal/distinct hashes, any multiset of "
+                    "at most %s child entries <<intent, hash or unknown>>, maxDepth 0..3, root transaction/subintent, "
+                    "yield counts 1 / mixed / %s on valid trees) enumerated by TLC as states%s; each is "
                     "validated by the real validate_intents_and_structure through mock intents, in canonical and seeded "
                     "shuffled child order; the realizable ones (trees with distinct hashes, any depth / yield counts >= 1) additionally as "
                     "real V2 notarized transactions through the full validator; distinct = distinct structures with n >= 1"
-                    % ("2" if q else "3", " + 2000 seeded n=3 structures" if q else " + 10000 seeded perturbed n=4 trees")}
+                    % ("n+2 (n <= 2) or 3 (n = 3)" if q else "n+2",
+                       "all 0..2 combinations (n <= 2) / every single edge through 9 count pairs (n = 3)" if q else "all 0..2 combinations",
+                       " + 1000 seeded n=3 structures with up to 5 child entries" if q else " + 10000 seeded perturbed n=4 trees")}
 
 
 # ---------------------------------------------------------------------------------------------
@@ -282,9 +287,21 @@ def C33(ctx):
         raise ToolError("binding self-test of sigs: %d of 3 corruptions reported" % n)
 
     # T: single-byte mutations of valid real transactions, decided by TraceTxSigs
-    nb = 30 if q else 200
-    step = max(1, len(valid) // nb)
-    bases = valid[::step][:nb]
+    # bases: one valid configuration of EVERY stratum (version x signature limit x notary curve x notary_is_signatory x
+    # number of signatures on root / subintent incl. none and "at the limit" x notary also an intent signer), the one
+    # with the most curves among its signers; thorough adds evenly spaced further ones.  (No seed, no every-N-th.)
+    def stratum(c):
+        return (c["ver"], c["cfg"]["maxSigs"], c["notary"] <= 2, c["signatory"], tuple(len(s) for s in c["sigs"]),
+                c["notary"] in [s["k"] for s in c["sigs"][0]])
+    groups = collections.OrderedDict()
+    for c in valid:
+        groups.setdefault(stratum(c), []).append(c)
+    bases = [max(g, key=lambda c: len({s["k"] <= 2 for l in c["sigs"] for s in l})) for g in groups.values()]
+    if len(bases) < 40:
+        raise ToolError("only %d strata of valid signer configurations" % len(bases))
+    if not q:
+        step = max(1, len(valid) // 150)
+        bases += [c for c in valid[::step] if not any(c is b for b in bases)]
     bp = ctx.wpath("bases.ndjson")
     write_ndjson(bp, bases)
     rc, out = vh(BIN, ["sigs", "mutate", "seed=%d" % (ctx.seed % 1000), "per_region=%d" % (3 if q else 0), "masks=1,128"],
@@ -300,7 +317,7 @@ def C33(ctx):
     fake[0]["after"]["signers"] = [["e00"]]
     fake[1]["after"] = dict(fake[1]["before"])
     fake[1]["after"]["content"] = ["00"]
-    bad = validate_calls("TxSigs", "TraceTxSigs", evs + fake, ctx.pid + "-mut", chunks=1 if q else 12)
+    bad = validate_calls("TxSigs", "TraceTxSigs", evs + fake, ctx.pid + "-mut", chunks=3 if q else 12)
     if [i for i in bad if i >= len(evs)] != [len(evs), len(evs) + 1]:
         raise ToolError("binding self-test of TraceTxSigs failed: corrupted events not rejected")
     bad = [i for i in bad if i < len(evs)]
